@@ -13,7 +13,9 @@ package main
 // events and by three independent decoders.
 
 import (
+	"encoding/hex"
 	"math/rand"
+	"strconv"
 	"strings"
 )
 
@@ -30,6 +32,39 @@ next sound below saw something thought both few those always looked show large o
 func makePayload(class string, n int, seed int64) []byte {
 	b := make([]byte, n)
 	rng := rand.New(rand.NewSource(seed*1000003 + int64(n)))
+	if strings.HasPrefix(class, "hex:") {
+		// Explicit bytes (payloads that spec/RangeCoderReach.tla found to
+		// reach a rare encoder state), padded with zeros up to n.
+		h, err := hex.DecodeString(class[4:])
+		if err != nil {
+			panic("bad hex payload class " + class)
+		}
+		copy(b, h)
+		return b
+	}
+	if strings.HasPrefix(class, "rz:") || strings.HasPrefix(class, "trz:") {
+		// Boundary-directed class for the compressed-vs-uncompressed chunk
+		// choice (XzLayout: an LZMA chunk's packed size has 16 bits, a chunk
+		// may always be stored instead): the last chunk of the payload is
+		// N pseudo-random bytes followed by zeros.  The random bytes depend
+		// on the seed only, so the prefixes nest and the range-coded size
+		// grows (almost) monotonically with N.  "trz" puts a full 64 KiB
+		// chunk of text in front, making it the second chunk.
+		nn, err := strconv.Atoi(class[strings.IndexByte(class, ':')+1:])
+		start := 0
+		if class[0] == 't' {
+			start = 65536
+			if n < start {
+				start = n
+			}
+			copy(b[:start], makePayload("text", start, seed))
+		}
+		if err != nil || nn < 0 || start+nn > n {
+			nn = n - start
+		}
+		rand.New(rand.NewSource(seed)).Read(b[start : start+nn])
+		return b
+	}
 	switch class {
 	case "zero":
 	case "ff":
